@@ -142,6 +142,39 @@ def metaCmd (dead : Bool) (cmd : String) (args : List String) : Option (Bool × 
 end Driver
 
 namespace Driver
+/-- forward tunnels and `InitiateShutdown` (TestW2ForwardShutdown): the only state is the handler's shutdown flag, which
+    every tunnel's `createStream` consults (`Srv.closing`): by `C10_refused` a new RPC is then refused with Unavailable, and by
+    `C10_flag_only_read_by_new_stream` nothing else changes: RPCs in flight finish as they would have -/
+def fwdCmd (closing : Bool) (cmd : String) : Option (Bool × String) :=
+  match cmd with
+  | "f.init" => some (false, "ok")
+  | "f.open" | "f.tick" => some (closing, "ok")
+  | "f.shutdown" => some (true, "ok")
+  | "f.rpc" => some (closing, if closing then "status:Unavailable" else "nil")
+  | "f.hold" => some (closing, if closing then "recv:status:Unavailable" else "ok")
+  | "f.finish" => some (closing, "eof")
+  | _ => none
+
+open TunnelModel in
+/-- negotiation on the public API (TestW2Negotiate): the library in one of its four roles against a hand-written peer -/
+def negCmd (cmd : String) (args : List String) : Option String :=
+  if cmd != "n.case" then none else
+  let peerOf := fun (s : Option String) => match s with
+    | some "disabled" => Negotiate.Peer.disabled | some "legacy" => Negotiate.Peer.legacy | _ => Negotiate.Peer.enabled
+  let lib := peerOf (kv args "lib")
+  let peer := peerOf (kv args "peer")
+  let hdr := if lib.advertises then 1 else 0
+  match kv args "role" with
+  | some "fwd-call" | some "rev-call" =>
+    -- the library is the calling end: which revision its new_stream frames carry
+    match Negotiate.revisionUsed lib peer with
+    | some r => some s!"header={hdr} rev={r} rpc=nil"
+    | none => some s!"header={hdr} rev=-1 rpc=fails"
+  | some "fwd-serve" | some "rev-serve" =>
+    -- the library is the serving end: does it send a settings frame
+    some s!"header={hdr} settings={if Negotiate.settingsSent peer lib then 1 else 0} close=0"
+  | _ => some "bad-op"
+
 /-- C17 identity family: the specification is "every accessor reports the planted
     identity"; the harness reduces each case to `ok` or a description of what differed -/
 def idCmd (cmd : String) : Option String :=
